@@ -12,6 +12,7 @@ import (
 	"go.opentelemetry.io/otel/attribute"
 
 	"github.com/honeycombio/refinery/config"
+	"github.com/honeycombio/refinery/sharder"
 )
 
 // C16: stress-relief decisions are deterministic, remembered and delivered intact.
@@ -20,7 +21,7 @@ import (
 
 func init() {
 	Register(&Check{ID: "C16", World: "B/cluster", Gen: genStressB, Run: runStressB, Real: bReal, Stub: bStub,
-		OwnProbes: []string{"stressed_span_kept", "stressed_span_dropped", "stressed_on_non_owner_kept", "late_span_after_relief_on_owner", "probe_sent_to_owner", "both_entry_and_owner_stressed", "batch_waited_for_its_sender", "relief_ended_while_span_in_router"}})
+		OwnProbes: []string{"stressed_span_kept", "stressed_span_dropped", "stressed_on_non_owner_kept", "late_span_after_relief_on_owner", "probe_sent_to_owner", "both_entry_and_owner_stressed", "batch_waited_for_its_sender", "relief_ended_while_span_in_router", "relief_started_while_span_in_router"}})
 }
 
 func genStressB(r *Rng, tier string, p *Plan) {
@@ -36,6 +37,12 @@ func genStressB(r *Rng, tier string, p *Plan) {
 	p.N["sampler_rate"] = int64(PickOf(r, 1, 2, 2, 3))
 	for t := 0; t < nPre; t++ {
 		p.Add(Op{K: "ev", At: int64(10_000 + 5_000*t), I: -1, J: int64(100 + t), N: int64(1000 + t), S: "json", T: "batch", M: 0})
+	}
+	if nPre == 0 && r.Bool(0.2) {
+		// before any relief: a span whose node switches relief on while the span is
+		// inside the router (keep-everything sampler, so its fate is known)
+		p.N["sampler_rate"] = 1
+		p.Add(Op{K: "ev", At: int64(100_000 + r.Intn(700)*1000), I: int64(r.Intn(nodes)), J: 90, N: 900, S: PickOf(r, "json", "msgpack"), T: "batch|relief_starts", M: int64(r.Intn(4))})
 	}
 	// which nodes get stressed, and when
 	now := int64(900_000)
@@ -53,6 +60,7 @@ func genStressB(r *Rng, tier string, p *Plan) {
 	}
 	mk := 0
 	endsDuring := false
+	startsDuring := false
 	for t := 0; t < nTraces; t++ {
 		nsp := r.Range(1, 3)
 		for s := 0; s < nsp; s++ {
@@ -63,7 +71,17 @@ func genStressB(r *Rng, tier string, p *Plan) {
 				entry = r.Intn(nodes)
 			}
 			ev := Op{K: "ev", At: now, I: int64(entry), J: int64(t), N: int64(mk), S: PickOf(r, "json", "msgpack"), T: "batch", M: int64(r.Intn(4))}
-			if !endsDuring && r.Bool(0.06) {
+			if !startsDuring && r.Bool(0.05) {
+				// arrives at a node that is not (or no longer) stressed; relief starts on
+				// that node while this very span is inside the router (after the router
+				// has seen the node unstressed)
+				ev.T = "batch|relief_starts"
+				ev.I = int64(r.Intn(nodes))
+				startsDuring = true
+				if nPre == 0 {
+					p.N["sampler_rate"] = 1 // keep everything: the span's fate is then known
+				}
+			} else if !endsDuring && r.Bool(0.06) {
 				// relief on the entry node ends while this very span is being handled
 				// (after the router has seen the node stressed)
 				ev.T = "batch|relief_ends"
@@ -110,6 +128,23 @@ type stressEv struct {
 	entryStressed   bool
 	late            bool
 	firstSeenStress bool // its trace was first seen while the entry node was stressed
+	reliefStartedDuring bool // relief started on the entry node while this span was inside the router
+}
+
+// hookSharder is what the routers get as Sharder in the stress runs: the real
+// sharder, whose WhichShard can run a hook first when a request handler calls it.
+type hookSharder struct {
+	sharder.Sharder
+	driver int64
+	hook   func()
+}
+
+func (h *hookSharder) WhichShard(traceID string) sharder.Shard {
+	if f := h.hook; f != nil && goid() != h.driver {
+		h.hook = nil
+		f()
+	}
+	return h.Sharder.WhichShard(traceID)
 }
 
 func runStressB(t *testing.T, p *Plan) *Outcome {
@@ -128,6 +163,13 @@ func runStressB(t *testing.T, p *Plan) *Outcome {
 			}
 		}
 		w.drv.Settle()
+		hookSh := map[int]*hookSharder{}
+		for _, n := range w.nodes {
+			hs := &hookSharder{Sharder: n.shard, driver: goid()}
+			hookSh[n.idx] = hs
+			n.app.IncomingRouter.Sharder = hs
+			n.app.PeerRouter.Sharder = hs
+		}
 		addrIdx := map[string]int{}
 		for _, n := range w.nodes {
 			addrIdx[n.addr] = n.idx
@@ -192,6 +234,7 @@ func runStressB(t *testing.T, p *Plan) *Outcome {
 				req := &bRequest{id: op.ID, node: int(op.I), endpoint: ep, enc: op.S, apiKey: legacyKey, dataset: "ds", events: []*bEvent{ev}}
 				se := &stressEv{op: op, ev: ev, req: req, entry: int(op.I), late: op.B}
 				reliefEnds := how == "relief_ends"
+				reliefStarts := how == "relief_starts"
 				evs = append(evs, se)
 				w.drv.AtSig(us(op.At), "request", fmt.Sprintf("op/%d", op.ID), fmt.Sprintf("%d/%d", op.I, op.J), func() {
 					n := w.nodes[se.entry]
@@ -202,6 +245,20 @@ func runStressB(t *testing.T, p *Plan) *Outcome {
 						se.firstSeenStress = true
 					}
 					seenAt[key] = true
+					if reliefStarts && !se.entryStressed {
+						// the router looks the trace's owner up after it has read the stress
+						// state: relief starts right there
+						se.reliefStartedDuring = true
+						hookSh[se.entry].hook = func() {
+							n.cfg.Mux.Lock()
+							n.cfg.StressRelief.Mode = "always"
+							n.cfg.Mux.Unlock()
+							n.sr.UpdateFromConfig()
+							n.sr.Recalc()
+							out.Probe("relief_started_while_span_in_router")
+							out.Fault("stress_relief_toggle")
+						}
+					}
 					if reliefEnds && se.entryStressed {
 						// the collector's stress path announces itself to the tracer after the
 						// router has read the stress state: relief ends right there
@@ -381,6 +438,26 @@ func runStressB(t *testing.T, p *Plan) *Outcome {
 					}
 					if !k && len(hs) != 0 {
 						out.Violate("C16", "late_span_does_not_follow_stress_decision", "collect.InMemCollector", "%s: the trace was dropped under stress but this later span reached Honeycomb %d times", desc, len(hs))
+					}
+				}
+			}
+			// (only when the entry node owns the trace: a forwarded span may meet a
+			// stressed owner, whose stress rule then decides it)
+			if se.reliefStartedDuring && se.owner == se.entry && p.Get("sampler_rate", 1) == 1 && !se.late && se.op.J < 100 {
+				everStressed := false
+				for _, o := range evs {
+					// an earlier span of the trace handled under stress may have left a
+					// remembered decision that this span follows; later ones cannot
+					if o.ev.traceID == se.ev.traceID && o != se && o.op.At <= se.op.At && (o.entryStressed || o.reliefStartedDuring) {
+						everStressed = true
+					}
+				}
+				if !everStressed {
+					out.Probe("unstressed_span_checked_after_relief_started_during_it")
+					if len(hs) != 1 {
+						out.Violate("C23", "accepted_but_discarded", site, "%s: answered with success while the node was not stressed (relief started while the span was inside the router), the sampler keeps everything, yet it reached Honeycomb %d times", desc, len(hs))
+						out.Violate("C19", "span_not_handled_exactly_once", site, "%s: accepted while the node was not stressed (relief started while the span was inside the router), the sampler keeps everything, yet it reached Honeycomb %d times", desc, len(hs))
+						out.Violate("C16", "unstressed_span_lost_when_relief_started", site, "%s: the router saw the node unstressed, relief started while the span was inside the router, the sampler keeps everything, yet it reached Honeycomb %d times", desc, len(hs))
 					}
 				}
 			}
